@@ -15,6 +15,8 @@ def mk(d, key, L, rounds):
 
 
 def keyof(kl):
+    if isinstance(kl, tuple):          # (length, fill byte): constant keys such as all-zero keys
+        return bytes([kl[1]]) * kl[0]
     return ramp(kl, 7, 0x41)
 
 
@@ -111,6 +113,17 @@ def pts_rounds(tier):
         for kl in (0, 3):
             for L in (64, 0):
                 pts.append((d, L, kl, 3, None))
+        # keys made of one repeated byte (a key that is present but all zero still counts as a key)
+        for kl in ((1, 0), (8, 0), (64, 0), (3, 255)):
+            for L in (64, 0, 1):
+                pts.append((d, L, kl, 3, None))
+                pts.append((d, L, kl, 600, 12))
+    # explicit round counts over the whole range of the 12-bit field
+    for rounds in (1, 2, 3, 4, 6, 7, 8, 10, 11, 13, 16, 17, 32, 80, 104, 167, 168, 169, 170, 200, 255, 256, 257) + ((500, 1023, 1024, 4095) if tier == 'thorough' else (511,)):
+        for L in (64, 0):
+            pts.append((256, L, 0, 3, rounds))
+            if rounds in (169, 257):
+                pts.append((256, L, 8, 520, rounds))
     for d in (160, 256, 512) if tier == 'thorough' else (256,):
         for L in (64, 0, 1):
             for kl in (0, 8, 64):
@@ -123,7 +136,7 @@ def pts_rounds(tier):
 def run_rounds(ctx, pt):
     d, L, kl, n, rounds = pt
     M = expander(n, 2)
-    judge(ctx, 'rounds/%s/%s' % ('default' if rounds is None else 'explicit', 'keyed' if kl else 'unkeyed'), d, L, kl, rounds, M)
+    judge(ctx, 'rounds/%s/%s' % ('default' if rounds is None else 'explicit', ('keyed-constant' if isinstance(kl, tuple) else 'keyed') if kl else 'unkeyed'), d, L, kl, rounds, M)
 
 
 def selftest():
@@ -139,7 +152,7 @@ def subchecks():
         Sub('shapes', pts_shapes, run_shapes, engine='P',
             bound='L in {0,1,2,3,64} x key length {0,1,8,63,64} x message byte length in {0..3, 383..385, 511..513, 767..769, 1023..1025, 1535..1537, 2047..2049, 5, 16, 17-, 64+, 65 leaf blocks} (quick: subset above 17 leaves / for odd key lengths) x d in 9 (4) sizes at lengths 3 and 513, 12 rounds'),
         Sub('bit-lengths', pts_bits, run_bits, engine='P', bound='every L\' mod 8 at 1, 512, 513, 2049, 2561 (thorough 8704) bytes in tree, sequential and hybrid mode; containers 7 bytes longer'),
-        Sub('rounds', pts_rounds, run_rounds, engine='P', bound='default round count 40+d/4 (max(80,.) with a key) for d in {8,64,128,160,384} (thorough 11 sizes) keyed and unkeyed; rounds 1, 5 (thorough 9, 40, 168) x L in {64,0,1} x key length {0,8,64} x 3-4 lengths'),
+        Sub('rounds', pts_rounds, run_rounds, engine='P', bound='default round count 40+d/4 (max(80,.) with a key) for d in {8,64,128,160,384} (thorough 11 sizes) keyed, unkeyed and with all-zero / all-ff keys; explicit rounds 1..17 (subset), 32, 80, 104, 167..170, 200, 255..257, 511 (thorough 500, 1023, 1024, 4095); rounds 1, 5 (thorough 9, 40, 168) x L in {64,0,1} x key length {0,8,64} x 3-4 lengths'),
     ]
 
 
